@@ -900,7 +900,14 @@ fn check_package(ctx: &mut Ctx, b: &Built, pkg_file: &str, prog: &cb::Obj) {
             continue;
         }
         let Some(expect) = parse_unit_index(&text, sec) else {
-            ctx.inconclusive(&format!("corpus: {label}: llvm-dwarfdump printed no {sec}"));
+            // binutils dwp writes an empty .debug_tu_index (header only) that llvm-dwarfdump
+            // does not print: gimli must see no units in it
+            let index = if is_tu { &pkg.tu_index } else { &pkg.cu_index };
+            if index.unit_count() == 0 {
+                ctx.obs("corpus.pkg.index.empty");
+            } else {
+                ctx.inconclusive(&format!("corpus: {label}: llvm-dwarfdump printed no {sec}"));
+            }
             continue;
         };
         ctx.eval();
